@@ -1,4 +1,5 @@
 import LarkVerif.LR
+import LarkVerif.LRError
 import LarkVerif.LR0Viable
 /-! # The LALR driver has the correct-prefix property (C08: "every terminal in `accepts` can legally come next"; errors at the first offending token)
 
@@ -89,5 +90,60 @@ theorem fed_prefix_is_viable {G : Grammar} {T : Table} {A : Auto} {s0 start : Na
     | error => rw [hres] at hf; simp at hf
     | crash => rw [hres] at hf; simp at hf
     | loop => rw [hres] at hf; simp at hf
+
+/-- at the end of input the driver never shifts -/
+theorem reduceLoop_end_no_shift (T : Table) (t : Nat) : ∀ fuel cfg cfg',
+    reduceLoop T t true fuel cfg ≠ Outcome.shifted cfg' := by
+  intro fuel
+  induction fuel with
+  | zero => intro cfg cfg'; simp [reduceLoop]
+  | succ f ih =>
+    intro cfg cfg'
+    unfold reduceLoop
+    split
+    · simp
+    · split
+      · simp
+      · simp
+      · simp only
+        split
+        · simp
+        · split
+          · simp
+          · split
+            · simp
+            · exact ih _ cfg'
+
+/-- **Everything `accepts()` returns can legally come next**: a terminal other than `$END` begins a continuation of the consumed input to a
+    sentence; `$END` is in it only if the consumed input *is* a sentence. -/
+theorem accepts_are_legal {G : Grammar} {T : Table} {A : Auto} {s0 start : Nat} (hT : TableSafe G T s0) (h : checkLR0 G A = true)
+    (hP : Productive G) (h0 : T.start < A.items.length) (hstart : ∀ x ∈ A.kernelOf T.start, x.2 = 0 ∧ x.1.lhs = start ∧ x.1 ∈ G.rules)
+    (hne : ∀ q, q < A.items.length → A.kernelOf q ≠ []) (hTA : TableOf T A)
+    {cfg : Config} {consumed : List Nat} (hinv : Inv G T cfg consumed) (terms : List Nat) (eof fuel t : Nat)
+    (ht : t ∈ acceptsOf T terms eof fuel cfg) :
+    (t ≠ eof → ∃ w, DerivesSeq G [Sym.nt start] (consumed ++ t :: w)) ∧ (t = eof → DerivesSeq G [Sym.nt s0] consumed) := by
+  have hok : feedOK T eof fuel cfg t = true := by
+    unfold acceptsOf at ht
+    exact (List.mem_filter.mp ht).2
+  unfold feedOK at hok
+  constructor
+  · intro hne'
+    have hb : (t == eof) = false := by simpa using hne'
+    rw [hb] at hok
+    cases hres : reduceLoop T t false fuel cfg with
+    | shifted cfg' => exact fed_token_is_legal hT h hP h0 hstart hne hTA hinv hres
+    | accept v => exact absurd hres (reduceLoop_no_accept T t fuel cfg v)
+    | error => rw [hres] at hok; cases hok
+    | crash => rw [hres] at hok; cases hok
+    | loop => rw [hres] at hok; cases hok
+  · intro heq
+    have hb : (t == eof) = true := by simpa using heq
+    rw [hb] at hok
+    cases hres : reduceLoop T t true fuel cfg with
+    | shifted cfg' => exact absurd hres (reduceLoop_end_no_shift T t fuel cfg cfg')
+    | accept v => exact ((reduceLoop_sound hT t true fuel cfg consumed hinv).2 v hres).2.2
+    | error => rw [hres] at hok; cases hok
+    | crash => rw [hres] at hok; cases hok
+    | loop => rw [hres] at hok; cases hok
 
 end LRProto
